@@ -119,7 +119,7 @@ Qed.
 Lemma plthook_entry_linv : forall s kd k loc arg, linv s -> linv (plthook_entry s kd k loc arg).
 Proof.
   intros s kd k loc arg [A [B C]]. unfold plthook_entry.
-  set (e := new_ent s true k loc).
+  set (e := new_ent s true k loc (kind_of kd arg)).
   assert (He : e_depth e = N.of_nat (length (rs s))) by (unfold e, new_ent; simpl; exact A).
   pose proof (rtd_shape e (rs s)) as R.
   destruct (is_flush kd).
